@@ -70,6 +70,7 @@ const (
 	WireSUTSend = 1 // SUT sender -> scripted peer
 	WireSUTRecv = 2 // scripted peer -> SUT receiver
 	WireDuplex  = 3 // two SUT transports, both sending and receiving at once (4 tasks, 2 per transport)
+	WireMulti   = 4 // several tasks Send on ONE transport at the same time; the peer transport receives everything
 )
 
 const (
@@ -80,7 +81,7 @@ const (
 )
 
 var cutNames = [...]string{"none", "FIN", "RST", "local-close"}
-var wireNames = [...]string{"pair", "sut-sends", "sut-receives", "duplex"}
+var wireNames = [...]string{"pair", "sut-sends", "sut-receives", "duplex", "multi-sender"}
 
 type plan struct {
 	v6      bool // the peer / crossover address is an IPv6 address
@@ -153,7 +154,7 @@ func genLen(allowLarge bool) int {
 
 func genPlan(o hx.Opts) *plan {
 	p := &plan{segMode: -1}
-	p.wiring = hx.G(4)
+	p.wiring = hx.G(5)
 	const maxFrames = 6
 	var lens, lens2 [maxFrames]int
 	large := 0
@@ -169,8 +170,16 @@ func genPlan(o hx.Opts) *plan {
 	n := 1 + hx.G(maxFrames)
 	n2 := 1 + hx.G(maxFrames)
 	p.lens = append(p.lens, lens[:n]...)
-	if p.wiring == WireDuplex {
+	if p.wiring == WireDuplex || p.wiring == WireMulti {
 		p.lens2 = append(p.lens2, lens2[:n2]...)
+	}
+	if p.wiring == WireMulti {
+		// the second sender sometimes sends large frames too (a non-atomic large write is where senders interleave)
+		for i := range p.lens2 {
+			if lens[maxFrames-1-i%maxFrames]%3 == 0 {
+				p.lens2[i] = 16385 + lens[maxFrames-1-i%maxFrames]%70000
+			}
+		}
 	}
 	p.v6 = hx.G(5) == 0
 	ts, r1 := hx.G(4), hx.G(maxFrames+1)
@@ -220,7 +229,7 @@ func genPlan(o hx.Opts) *plan {
 			p.cutKind = cutFIN
 		}
 	}
-	if p.wiring == WireDuplex || p.twoSess {
+	if p.wiring == WireDuplex || p.wiring == WireMulti || p.twoSess {
 		p.cutKind = cutNone
 	}
 	ka, k1, k2 := hx.G(6), hx.G(maxFrames+1), hx.G(maxFrames+1)
@@ -583,6 +592,47 @@ func Run(seed uint64, index int64, o hx.Opts) *hx.Result {
 			rt.Join(peer, -1)
 			ln.Close()
 
+		case WireMulti:
+			for f, l := range pl.lens2 {
+				frames2 = append(frames2, payload(300+f, l))
+			}
+			a := transport.NewTransport("nbt")
+			b := transport.NewTransport("nbt")
+			if err := a.Connect(xIP, 139); err != nil {
+				bad = &hx.Violation{Class: "connect", Key: "connect", Msg: err.Error()}
+				return
+			}
+			if err := b.Connect(xIP, 139); err != nil {
+				bad = &hx.Violation{Class: "connect", Key: "connect", Msg: err.Error()}
+				return
+			}
+			total := 0
+			for _, fs := range [][][]byte{frames, frames2} {
+				for _, p := range fs {
+					if len(p) <= maxLen {
+						total++
+					}
+				}
+			}
+			s1 := rt.GoHarness("sender-1", "", func() {
+				for _, p := range frames {
+					n, err := a.Send(p)
+					sends = append(sends, sendRes{n, err})
+				}
+			})
+			s2 := rt.GoHarness("sender-2", "", func() {
+				for _, p := range frames2 {
+					n, err := a.Send(p)
+					sends2 = append(sends2, sendRes{n, err})
+				}
+			})
+			rc := rt.GoHarness("receiver", "", func() { recvs = receiveAll(b, total, false) })
+			rt.Join(rc, -1)
+			b.Close()
+			rt.Join(s1, -1)
+			rt.Join(s2, -1)
+			a.Close()
+
 		case WireDuplex:
 			for f, l := range pl.lens2 {
 				frames2 = append(frames2, payload(100+f, l))
@@ -682,6 +732,9 @@ func Run(seed uint64, index int64, o hx.Opts) *hx.Result {
 	if pl.wiring == WireDuplex {
 		desc += fmt.Sprintf(" reverse-frames=%v", pl.lens2)
 	}
+	if pl.wiring == WireMulti {
+		desc += fmt.Sprintf(" second-sender-frames=%v", pl.lens2)
+	}
 	if len(pl.keepAt) > 0 {
 		desc += fmt.Sprintf(" keep-alive packets before frame(s) %v", pl.keepAt)
 	}
@@ -694,7 +747,9 @@ func Run(seed uint64, index int64, o hx.Opts) *hx.Result {
 	desc += fmt.Sprintf(" seg=%d window=%d ipv6=%v", pl.segMode, pl.window, pl.v6)
 	res.Sample = map[string]any{"plan": desc, "sends": len(sends), "receives": len(recvs), "wire_bytes_seen_by_peer": len(wire)}
 	if v == nil && bad == nil {
-		if len(pl.keepAt) > 0 {
+		if pl.wiring == WireMulti {
+			bad = oracleMulti(frames, frames2, recvs)
+		} else if len(pl.keepAt) > 0 {
 			bad = oracleKeepAlive(frames, recvs)
 		} else if pl.twoSess {
 			pp := *pl
@@ -948,6 +1003,53 @@ func oracleKeepAlive(frames [][]byte, recvs []recvRes) *hx.Violation {
 					ok, len(r.data), len(legal[ok]), eqPrefix(r.data, legal[ok]), results(recvs))}
 		}
 		ok++
+	}
+	return nil
+}
+
+// oracleMulti: two tasks sent on one transport concurrently. Frames of the two senders may interleave in
+// any order, but every received message must be, intact, the next not yet received frame of one of the
+// senders (per-sender order is preserved by the byte stream), and all of them must arrive.
+func oracleMulti(f1, f2 [][]byte, recvs []recvRes) *hx.Violation {
+	var q [2][][]byte
+	for _, p := range f1 {
+		if len(p) <= maxLen {
+			q[0] = append(q[0], p)
+		}
+	}
+	for _, p := range f2 {
+		if len(p) <= maxLen {
+			q[1] = append(q[1], p)
+		}
+	}
+	want := len(q[0]) + len(q[1])
+	got := 0
+	// reach[i][j]: the messages received so far can be explained by the first i frames of sender 1 and the
+	// first j frames of sender 2 (identical frames of the two senders make a greedy match ambiguous)
+	reach := map[[2]int]bool{{0, 0}: true}
+	for _, r := range recvs {
+		if r.err != nil {
+			return &hx.Violation{Class: "spurious_receive_error", Key: "multi-sender",
+				Msg: fmt.Sprintf("two tasks sent %d frames on one transport at the same time; Receive failed after %d of them: %v; results: %s", want, got, r.err, results(recvs))}
+		}
+		next := map[[2]int]bool{}
+		for st := range reach {
+			if st[0] < len(q[0]) && bytes.Equal(r.data, q[0][st[0]]) {
+				next[[2]int{st[0] + 1, st[1]}] = true
+			}
+			if st[1] < len(q[1]) && bytes.Equal(r.data, q[1][st[1]]) {
+				next[[2]int{st[0], st[1] + 1}] = true
+			}
+		}
+		if len(next) == 0 {
+			return &hx.Violation{Class: "boundary", Key: "multi-sender/" + lenBucket(len(r.data)),
+				Msg: fmt.Sprintf("two tasks sent on one transport at the same time; received message #%d (%d bytes) is not the next frame of either sender (frames of concurrent senders were interleaved on the wire); results: %s", got, len(r.data), results(recvs))}
+		}
+		reach = next
+		got++
+	}
+	if got < want {
+		return &hx.Violation{Class: "spurious_receive_error", Key: "multi-sender", Msg: fmt.Sprintf("only %d of %d frames arrived", got, want)}
 	}
 	return nil
 }
